@@ -1,9 +1,11 @@
 import Proofs.C20Show
 import Proofs.C20Quote
 import Proofs.C04Gen
+import Proofs.C20Stmt
+import Proofs.C20Num
 /-! Property theorems for C20 (see /verif/DESIGN.md). Only property theorems and non-vacuity examples live here.
 
-Expressions (token level; the language of C04's theorems without the blank concatenation operator): `showE` mirrors the `String()` methods of internal/ast/ast.go with
+Expressions (token level; every tree of the parser's range that C04's theorems cover: everything but the getline forms): `showE` mirrors the `String()` methods of internal/ast/ast.go with
 `parenthesize`; `addShow e` is the tree the printed text denotes. String and regex literals (byte level): `quote` /
 `lexString`, `formatRegex` / `lexRegex` mirror `quoteString`, the lexer's `parseString`, `formatRegex`, `scanRegex`. -/
 namespace GoawkModel.C20
@@ -11,28 +13,28 @@ open GoawkModel.C04
 
 /-- The printed form of an expression of the parser's range is accepted by the parser and parses to the same tree
     apart from grouping nodes (`ParserRange` = `canon pc 1`, the trees `parseExpr` produces: C04 `parse_canonical`). -/
-theorem show_reparses (e : Expr) (pc : Bool) (rest : List Tok) (hr : canon pc 1 e = true) (hn : noConcat e = true)
+theorem show_reparses (e : Expr) (pc : Bool) (rest : List Tok) (hr : canon pc 1 e = true)
     (hf : Follow pc rest) :
     ∃ e', parseExpr pc (showE e ++ rest) = .ok (e', rest) ∧ strip e' = strip e := by
   refine ⟨addShow e, ?_, strip_addShow e⟩
-  rw [showE_eq_render e hn pc 1 hr]
-  exact parseExpr_canon pc (addShow e) rest (canon_addShow e hn pc 1 hr) (by unfold Follow at hf; omega)
+  rw [showE_eq_render e pc 1 hr]
+  exact parseExpr_canon pc (addShow e) rest (canon_addShow e pc 1 hr) (by unfold Follow at hf; omega)
 
 /-- Printing the re-parsed tree yields the same text again. -/
-theorem show_idempotent (e : Expr) (pc : Bool) (rest : List Tok) (hr : canon pc 1 e = true) (hn : noConcat e = true)
+theorem show_idempotent (e : Expr) (pc : Bool) (rest : List Tok) (hr : canon pc 1 e = true)
     (hf : Follow pc rest) :
     ∀ e' rest', parseExpr pc (showE e ++ rest) = .ok (e', rest') → showE e' = showE e := by
   intro e' rest' h
-  have hs := showE_eq_render e hn pc 1 hr
-  rw [hs, parseExpr_canon pc (addShow e) rest (canon_addShow e hn pc 1 hr) (by unfold Follow at hf; omega)] at h
+  have hs := showE_eq_render e pc 1 hr
+  rw [hs, parseExpr_canon pc (addShow e) rest (canon_addShow e pc 1 hr) (by unfold Follow at hf; omega)] at h
   cases h
-  rw [showE_eq_render (addShow e) (noConcat_addShow e hn) pc 1 (canon_addShow e hn pc 1 hr), addShow_idem e hn pc 1 hr]
+  rw [showE_eq_render (addShow e) pc 1 (canon_addShow e pc 1 hr), addShow_idem e pc 1 hr]
   exact hs.symm
 
 /-- The printed tokens are the tree's own tokens plus parentheses exactly where `parenthesize` puts them. -/
-theorem show_is_render (e : Expr) (pc : Bool) (hr : canon pc 1 e = true) (hn : noConcat e = true) :
+theorem show_is_render (e : Expr) (pc : Bool) (hr : canon pc 1 e = true) :
     showE e = render (addShow e) :=
-  showE_eq_render e hn pc 1 hr
+  showE_eq_render e pc 1 hr
 
 /-- A printed string literal is read back by the lexer as the same bytes: for every byte string, every `IsPrint`
     predicate on non-ASCII runes, every continuation of the source. -/
@@ -48,6 +50,52 @@ theorem regex_roundtrip (r rest : Bytes) (h : C20Quote.RegexOk r) :
 /-- `RegexOk` is exactly the range of the lexer's regex reader (so `regex_roundtrip` covers every parsed program). -/
 theorem regex_range (r : Bytes) : C20Quote.RegexOk r ↔ ∃ src rest, C20Quote.lexRegex src = some (r, rest) :=
   C20Quote.regexOk_iff_lexable r
+
+/-! ### statements: the control-flow skeleton (GoawkModel.C20Stmt) -/
+
+/-- The printed form of a statement of the control-flow skeleton (simple | if/else | while | do | for | for-in | block;
+    conditions and simple statements are opaque tokens, covered by `show_reparses` for expressions) is read back by the
+    statement parser model as exactly the same tree, whatever follows the line (except a dangling `else`). -/
+theorem show_reparses_stmt (s : C20Stmt.S) (rest : List C20Stmt.STok) (hs : C20Stmt.isStmt s = true)
+    (hrest : C20Stmt.hd (C20Stmt.skipNl rest) ≠ .kElse) :
+    C20Stmt.parseStmt (C20Stmt.showS s ++ .nl :: rest) = some (s, C20Stmt.dropSeps rest, true) :=
+  C20Stmt.parseStmt_show s rest hs hrest
+
+/-- … hence printing the re-parsed statement gives the same tokens. -/
+theorem show_idempotent_stmt (s : C20Stmt.S) (rest : List C20Stmt.STok) (hs : C20Stmt.isStmt s = true)
+    (hrest : C20Stmt.hd (C20Stmt.skipNl rest) ≠ .kElse) :
+    ∀ s' r p, C20Stmt.parseStmt (C20Stmt.showS s ++ .nl :: rest) = some (s', r, p) → C20Stmt.showS s' = C20Stmt.showS s := by
+  intro s' r p h
+  rw [show_reparses_stmt s rest hs hrest] at h
+  cases h; rfl
+
+/-- What is not proved at statement/item level (decided by the implementation-side oracle only): the printed form of whole
+    programs — items (BEGIN, END, pattern-action with range patterns, functions with parameters) and the simple
+    statements (print/printf with parenthesised argument lists and redirections, delete, getline forms, exit/return
+    with a value) — re-parses to the same program, at byte level (no two adjacent printed tokens fuse). Stated over an
+    abstract program printer/parser pair because the model has no item level yet. -/
+def show_reparses_program (Program Text : Type) (print : Program → Text) (parse : Text → Option Program)
+    (norm : Program → Program) : Prop :=
+  ∀ p, (∃ src, parse src = some p) → ∃ p', parse (print p) = some p' ∧ norm p' = norm p ∧ print p' = print p
+
+/-! ### number literals (NumExpr.String as repaired by G20-1) -/
+
+/-- Printing a number literal is a fixed point of parse-and-print, for every formatter/reader satisfying `Laws`
+    (validated on strconv by the harness): `show (parse (show v)) = show v`. -/
+theorem num_show_fixed_point {V T : Type} (F : C20Num.NumFmt V T) (L : F.Laws) (v : V) :
+    F.show (F.parse (F.show v)) = F.show v :=
+  C20Num.show_fixed_point F L v
+
+/-- The value read back agrees with the original to six significant digits. -/
+theorem num_show_six_digits {V T : Type} (F : C20Num.NumFmt V T) (L : F.Laws) (v : V) (h : F.isInf v = false) :
+    F.fmtG (F.parse (F.show v)) = F.fmtG v :=
+  C20Num.show_value_six_digits F L v h
+
+/-- The repair is needed: the pre-G20-1 printer (`%.6g` whenever the value is not an integer) is not a fixed point for a
+    formatter satisfying the same laws. -/
+theorem num_old_show_fails :
+    ∃ (F : C20Num.NumFmt Nat String), F.Laws ∧ ∃ v, C20Num.oldShow F (F.parse (C20Num.oldShow F v)) ≠ C20Num.oldShow F v :=
+  C20Num.oldShow_not_fixed_point
 
 /-- Regenerated tie: ast.go's prec constants, every `precedence()` method, `parenthesize`'s test and `IsLValue` are the
     ones the printer model `goPrec` / `parenT` is written from. -/
@@ -65,10 +113,16 @@ theorem gen_matches :
 /-! ### non-vacuity -/
 
 /-- `2 ^ - x0` is in the parser's range and prints as `2 ^ ( - x0 )`; `- - x0`, `(1 + 2) * 3` with its written parentheses -/
-example : canon false 1 (.binary .pow (.num 2) (.unary .neg (.var 0))) = true ∧ noConcat (.binary .pow (.num 2) (.unary .neg (.var 0))) = true := by decide
+example : canon false 1 (.binary .pow (.num 2) (.unary .neg (.var 0))) = true := by decide
+/-- `x0 (- 1) $($x1)++ a[2]--`: concatenation, `$`, `++ --`, indexing are in the range the theorems cover -/
+example : canon false 1 (.binary .concat (.binary .concat (.binary .concat (.var 0) (.group (.unary .neg (.num 1)))) (.incr false false (.field (.group (.field (.var 1)))))) (.incr false true (.index 11 (.num 2)))) = true := by decide
 example : showE (.binary .pow (.num 2) (.unary .neg (.var 0))) = [.num 2, .pow, .lparen, .sub, .name 0, .rparen] := by decide
 example : canon true 1 (.binary .mul (.group (.binary .add (.num 1) (.num 2))) (.num 3)) = true := by decide
 example : Follow true [.cmp .gt, .str 1] := rfl
 example : C20Quote.RegexOk [0x61, 0x2f, 0x62] := by decide
+/-- `if (c1) { x2; while (c3) { } } else { do { x4 } while (c5) }` followed by a closing brace -/
+example : C20Stmt.isStmt (.ifS 1 (.seq (.simple 2) (.seq (.whileS 3 .skip) .skip)) (.seq (.doS (.seq (.simple 4) .skip) 5) .skip)) = true := by decide
+example : C20Stmt.hd (C20Stmt.skipNl [.rbrace]) ≠ .kElse := by decide
+example : C20Num.toy.Laws := C20Num.toy_laws
 
 end GoawkModel.C20
